@@ -770,10 +770,22 @@ Fixpoint find_undo_state (fuel : nat) (objs : store) (so : oid) (steps : Z) : op
       end
   end.
 
+(* modifications by other tools are logged before the walk through the log starts *)
+Definition log_extmods_first (op : opened) : option opened :=
+  if Nat.eqb (s_head (op_state op)) (w_branch (op_world op)) then Some op
+  else
+    match log_external_mods (op_world op) (op_state op) with
+    | Some (w', s') => Some (mkOpened w' s' (op_base op) (op_initialized op))
+    | None => None
+    end.
+
 Definition run_undo_like (w : world) (steps : Z) (hard : bool) (msg : msgkind) : world * exitc :=
   match open_stack PRequire w with
   | None => err2 w
-  | Some op =>
+  | Some op0 =>
+    match log_extmods_first op0 with
+    | None => err2 (op_world op0)
+    | Some op =>
       let w1 := op_world op in
       transact op (opts CDisallow true hard true true true)
         (fun t =>
@@ -786,6 +798,7 @@ Definition run_undo_like (w : world) (steps : Z) (hard : bool) (msg : msgkind) :
                end
            end)
         msg
+    end
   end.
 
 Definition run_undo (w : world) (n : Z) (hard : bool) : world * exitc :=
